@@ -8,7 +8,8 @@ WT=/tmp/wt-confirm
 [ -d $WT ] || git -C /repo worktree add -q --detach $WT HEAD
 git -C $WT checkout -q --detach "$(git -C /repo rev-parse HEAD)"; git -C $WT checkout -q -- .; git -C $WT clean -fdq
 PK="./ ./smf/ ./drivers/testdrv/ ./drivers/midicat/ ./drivers/internal/... ./internal/... ./sequencer/"
-if [ -d /tmp/seeded-out/fake-midicat/bin ]; then export PATH=/tmp/seeded-out/fake-midicat/bin:$PATH; fi
+if [ ! -x /tmp/fake-midicat/bin/midicat ]; then mkdir -p /tmp/fake-midicat && cp /verif/seeded/fake-midicat/main.go /verif/seeded/fake-midicat/go.mod /tmp/fake-midicat/ && (cd /tmp/fake-midicat && go build -o bin/midicat . ); fi
+export PATH=/tmp/fake-midicat/bin:$PATH
 cp "$D/zz_demo_test.go" "$WT/$PKG/zz_demo_test.go"
 without=$(cd $WT/v2 && go test -vet=off -count=1 -run 'Demo' ./${PKG#v2/}/ 2>&1 | tail -1)
 rm "$WT/$PKG/zz_demo_test.go"
